@@ -312,14 +312,25 @@ GridMatches(t, fmt, g, dev) ==
                    ELSE LET m == CHOOSE i \in DOMAIN g.grid : \A j \in DOMAIN g.grid : Len(g.grid[j]) <= Len(g.grid[i])
                         IN Len(g.grid[m]))
 
-RECURSIVE SubseqMatch(_, _, _, _)
-\* every source table is matched, in order, by an observed table; observed tables in between must be
-\* nested tables of the source (their separate listing is DON'T-CARE)
-SubseqMatch(src, obs, fmt, dev) ==
-    IF src = <<>> THEN TRUE
-    ELSE IF obs = <<>> THEN FALSE
-    ELSE \/ (GridMatches(Head(src), fmt, Head(obs), dev) /\ SubseqMatch(Tail(src), Tail(obs), fmt, dev))
-         \/ SubseqMatch(src, Tail(obs), fmt, dev)
+\* tables nested in the cells of a table (one level is what the universe contains; deeper ones recursively)
+RECURSIVE NestedIn(_)
+NestedIn(t) ==
+    ConcatAll([r \in DOMAIN t[2] |-> ConcatAll([c \in DOMAIN t[2][r] |->
+        LET inner == TopTables(t[2][r][c]) IN
+        inner \o ConcatAll([k \in DOMAIN inner |-> NestedIn(inner[k])])])])
+
+RemoveAt(s, i) == SubSeq(s, 1, i - 1) \o SubSeq(s, i + 1, Len(s))
+
+RECURSIVE SubseqMatch(_, _, _, _, _)
+\* every source table is matched, in order, by an observed table; an observed table in between must be one of
+\* the nested tables of the source, each listed at most once (whether nested tables are listed separately is
+\* DON'T-CARE; listing one twice, or inventing a table, is not)
+SubseqMatch(src, obs, nest, fmt, dev) ==
+    IF obs = <<>> THEN src = <<>>
+    ELSE \/ (src # <<>> /\ GridMatches(Head(src), fmt, Head(obs), dev)
+                /\ SubseqMatch(Tail(src), Tail(obs), nest, fmt, dev))
+         \/ \E i \in DOMAIN nest : GridMatches(nest[i], fmt, Head(obs), dev)
+                /\ SubseqMatch(src, Tail(obs), RemoveAt(nest, i), fmt, dev)
 
 RECURSIVE MergedMatch(_, _, _, _)
 \* as-built RTF grouping: runs of neighbouring source tables come back as one table (rows concatenated)
@@ -339,7 +350,8 @@ TablesOK(d, fmt, obs, dev) ==
         nonempty == SelectSeq(obs, LAMBDA g : g.grid # <<>>)        \* an empty sheet may or may not yield a table
     IN /\ \A k \in DOMAIN obs : obs[k].dim[1] = Len(obs[k].grid)
        /\ IF nested
-          THEN SubseqMatch(src, nonempty, fmt, dev) \/ ("Epub!NestedTableGarbles" \in dev /\ fmt = "epub")
+          THEN SubseqMatch(src, nonempty, ConcatAll([k \in DOMAIN src |-> NestedIn(src[k])]), fmt, dev)
+                  \/ ("Epub!NestedTableGarbles" \in dev /\ fmt = "epub")
           ELSE \/ /\ Len(nonempty) = Len(src)                        \* none lost, merged or invented
                   /\ \A k \in DOMAIN src :
                         \/ GridMatches(src[k], fmt, nonempty[k], dev)
@@ -373,4 +385,10 @@ TypedRowOK(kinds, row, fmt, dev) ==
     /\ Len(row) >= Len(kinds) \/ \A j \in (Len(row) + 1)..Len(kinds) : kinds[j] = "empty"
     /\ \A j \in DOMAIN row : IF j <= Len(kinds) THEN TypedAcceptable(kinds[j], row[j], fmt, dev)
                                                ELSE row[j].k = "ids" /\ row[j].v = <<>>
+
+\* a header-less typed grid (ODS): every row in place; trailing all-empty columns may be trimmed
+TypedGridOK(kinds, grid, fmt, dev) ==
+    /\ Len(grid) = Len(kinds)
+    /\ \A i \in DOMAIN kinds : TypedRowOK(kinds[i], grid[i], fmt, dev)
+
 =============================================================================
